@@ -70,7 +70,10 @@ async def apply(
     # Note: a zero-second or negative sleep is still a sleep, it will trigger a dummy patch.
     # A patch that has changed nothing on the server side (e.g. the same values written again) produces
     # no watch-event, so nothing would interrupt the sleep or start the next cycle: sleep & touch as usual.
-    patched = bool(patch) and resource_version != body.metadata.get('resourceVersion')
+    # The same goes for a patch that has produced no request at all (e.g. only the transformation functions,
+    # which had nothing to transform), or has found the object gone: there is no new version then.
+    patched = (bool(patch) and resource_version is not None and
+               resource_version != body.metadata.get('resourceVersion'))
 
     applied = False
     if delay and patched:
